@@ -110,7 +110,9 @@ DoCreateAsk   == st.cfg.set /\ (\E r \in AskReqs : Step(r)) /\ Small(st')
 DoCreateBid   == st.cfg.set /\ (\E r \in BidReqs : Step(r)) /\ Small(st')
 DoApprove     == st.cfg.set /\ \E r \in ApproveReqs(st) : Step(r)
 DoExit        == st.cfg.set /\ \E r \in ExitReqs : Step(r)
+\* the admitted pair is matched (whatever spelling each price was admitted in)
+DoMatch       == st.cfg.set /\ \E r \in {RMatch("exec1", NoFunds, "a1", "b1", p, K.size) : p \in {K.price, Dec(K.price.n, "t0")}} : Step(r)
 DoQuery       == \E r \in {RQuery("query_cfg", ""), RQuery("query_ver", ""), RQuery("query_ask", "a1"), RQuery("query_bid", "b1")} : Step(r)
 
-Next == DoInstantiate \/ DoCreateAsk \/ DoCreateBid \/ DoApprove \/ DoExit \/ DoQuery
+Next == DoInstantiate \/ DoCreateAsk \/ DoCreateBid \/ DoApprove \/ DoExit \/ DoMatch \/ DoQuery
 =============================================================================
